@@ -11,19 +11,25 @@ import (
 	"honnef.co/go/tools/lintcmd/cache"
 )
 
-// Key j of the concurrency test: action id and content are fixed functions of j, so
-// every process stores the same bytes under the same id (one output per action id,
-// the runner's situation) and every process can evaluate the oracle by itself.
+// Key j of the concurrency test: the action id and the three content variants are fixed
+// functions of j, so every process can evaluate the oracle by itself.  Role 'w' stores
+// variant 0 only (one output per action id); role 'x' stores a random variant (several
+// contents under one action id, as with the runner's gob-encoded facts): variant 1 has
+// the same size and other bytes, variant 2 is one byte longer.  The oracle: a hit is
+// exactly one of the variants of that key.
 var keySizes = []int{0, 1, 2, 100, 4096, 32767, 32768, 32769, 70000, 200000}
 
 func keyID(j int) cache.ActionID {
 	return cache.ActionID(sha256.Sum256([]byte(fmt.Sprintf("c05-key-%d", j))))
 }
 
-func keyData(j int) []byte {
+func keyData(j, v int) []byte {
 	n := keySizes[j%len(keySizes)]
+	if v == 2 {
+		n++
+	}
 	b := make([]byte, n)
-	x := uint64(j)*0x9E3779B97F4A7C15 + 1
+	x := uint64(j)*0x9E3779B97F4A7C15 + 1 + uint64(v)*0x632BE59BD9B4E019
 	for i := range b {
 		x ^= x << 13
 		x ^= x >> 7
@@ -57,17 +63,31 @@ func workerMode(args []string) {
 	}
 	c := openCache(dir)
 	r := &rng{seed}
-	datas := make([][]byte, nkeys)
+	datas := make([][3][]byte, nkeys)
 	for j := range datas {
-		datas[j] = keyData(j)
+		for v := 0; v < 3; v++ {
+			datas[j][v] = keyData(j, v)
+		}
+	}
+	isVariant := func(j int, got []byte) bool {
+		for v := 0; v < 3; v++ {
+			if bytes.Equal(got, datas[j][v]) {
+				return true
+			}
+		}
+		return false
 	}
 	var puts, puterr, hits, misses, openerr, trims, viol int
 	for i := 0; i < nops; i++ {
 		role := roles[r.next()%uint64(len(roles))]
 		j := int(r.next() % uint64(nkeys))
 		switch role {
-		case 'w':
-			if err := cache.PutBytes(c, keyID(j), datas[j]); err != nil {
+		case 'w', 'x':
+			v := 0
+			if role == 'x' {
+				v = int(r.next() % 3)
+			}
+			if err := cache.PutBytes(c, keyID(j), datas[j][v]); err != nil {
 				puterr++
 			} else {
 				puts++
@@ -79,18 +99,24 @@ func workerMode(args []string) {
 				misses++
 			} else if got, err := os.ReadFile(file); err != nil {
 				openerr++
-			} else if !bytes.Equal(got, datas[j]) {
+			} else if !isVariant(j, got) {
 				viol++
-				fmt.Printf("VIOL getfile key=%d want_len=%d got_len=%d got_sha=%s\n", j, len(datas[j]), len(got), sum(got))
+				kind := "getfile"
+				for v := 0; v < 3; v++ {
+					if len(got) < len(datas[j][v]) && bytes.Equal(got, datas[j][v][:len(got)]) {
+						kind = "getfile-prefix" // a strict prefix of a stored content
+					}
+				}
+				fmt.Printf("VIOL %s key=%d want_len=%d got_len=%d got_sha=%s\n", kind, j, len(datas[j][0]), len(got), sum(got))
 			} else {
 				hits++
 			}
 			got, _, err := cache.GetBytes(c, keyID(j))
 			if err != nil {
 				misses++
-			} else if !bytes.Equal(got, datas[j]) {
+			} else if !isVariant(j, got) {
 				viol++
-				fmt.Printf("VIOL getbytes key=%d want_len=%d got_len=%d got_sha=%s\n", j, len(datas[j]), len(got), sum(got))
+				fmt.Printf("VIOL getbytes key=%d want_len=%d got_len=%d got_sha=%s\n", j, len(datas[j][0]), len(got), sum(got))
 			} else {
 				hits++
 			}
